@@ -297,6 +297,9 @@ func (e *Exec) discharge(cfg *WorkerCfg) []OblResult {
 			r := OblResult{Kind: o.Kind, Msg: o.Msg, Site: o.Site, Status: a.status, Solver: a.solver, Secs: a.secs, Trivial: a.solver == "simplifier"}
 			if a.status == "sat" {
 				r.Model = e.fullModel(a.model)
+				if debugOn {
+					fmt.Fprintf(os.Stderr, "SAT %s %q: cond=%s\n", o.Kind, o.Msg, show(o.cond, 8))
+				}
 			}
 			out = append(out, r)
 		}
